@@ -1090,3 +1090,20 @@ Lemma analyze_shadowed :
   exists n k, nth_error all_classes n = Some k /\ canon all_classes n k <> Some n
     /\ canon all_classes n k = Some 5%nat /\ nth_error all_classes 5 = Some k_Spm2AnalyzeImage.
 Proof. exists 7%nat, k_AnalyzeImage. repeat split; try reflexivity. vm_compute. discriminate. Qed.
+
+(* ------------------------------------------------------------------ to_filename derives the file map from the name alone *)
+Lemma to_filename_name_only (Img : Type) (serialize : Img -> list Z) (compress : option nat -> list Z -> list Z)
+  (keys : list str) k c m1 m2 name fs :
+  to_filename_st Img serialize compress keys k (mkI Img c m1) name fs
+  = to_filename_st Img serialize compress keys k (mkI Img c m2) name fs
+  /\ forall st' fs', to_filename_st Img serialize compress keys k (mkI Img c m1) name fs = Ok (Some (st', fs')) ->
+       filespec_to_file_map k name = Ok (imap Img st')
+       /\ exists key fname, imap Img st' = [(key, fname)]
+            /\ fs' = (fname, compress (opener_index keys fname) (serialize c)) :: fs.
+Proof.
+  split; [reflexivity|]. intros st' fs' H. unfold to_filename_st in H. cbn [icontent] in H.
+  destruct (filespec_to_file_map k name) as [fm|] eqn:E; [|discriminate].
+  unfold to_filename in H. rewrite E in H.
+  destruct fm as [|[key fname] [|? ?]]; try discriminate.
+  inversion H; subst. cbn [imap]. split; [reflexivity|]. now exists key, fname.
+Qed.
